@@ -86,6 +86,25 @@ def main(run):
                     if len(res.q_calc) <= 260:
                         cases.append("(MkCase 0%%nat %s %s %s %s 0%%float %s)" % (flist(res.q_calc), flist(cdf), fhex(q[i]), fhex(sig), flist(res.weight_matrix[:, i])))
                         metas.append(dict(desc, point=int(i)))
+        # signed calculation grids (data next to the beam stop: the window reaches negative q): the public
+        # pinhole_resolution on a grid with negative points, as Pinhole1D calls it before taking |q_calc|
+        from sasmodels.resolution import pinhole_resolution
+        if len(q) >= 2:
+            dqw = rng.uniform(0.5, 1.5) * q
+            # the data points themselves belong to the grid (as in every default q_calc), so each window holds mass
+            qs = np.unique(np.concatenate([q, np.linspace((q - 2.6 * dqw).min(), (q + 3.1 * dqw).max(), rng.randint(40, 160))]))
+            qs = qs[np.abs(qs) >= 0.02 * q.min()]
+            Ws = pinhole_resolution(qs, q, np.maximum(dqw, 1e-8))
+            evals += 1; stats["pinhole_signed"] = stats.get("pinhole_signed", 0) + 1
+            desc = dict(kind="pinhole", grid=gname + "/signed", q=list(map(float, q)), dq=list(map(float, dqw)), q_calc=list(map(float, qs)))
+            sgn = Ws.sum(axis=0)
+            if not (Ws >= -1e-15).all() or not np.all(np.abs(sgn - 1) <= 1e-12):
+                run.add(Finding("C03:pinhole-signed:sum", "pinhole_resolution on a signed grid (%s): weights negative or not summing to one (%r)" % (gname, sgn[:3]), desc))
+            edges_s = bin_edges(qs)
+            for i in rng.sample(range(len(q)), min(3, len(q))):
+                cdf = erf((edges_s - q[i]) / (np.sqrt(2.0) * dqw[i]))
+                cases.append("(MkCase 0%%nat %s %s %s %s 0%%float %s)" % (flist(qs), flist(cdf), fhex(q[i]), fhex(dqw[i]), flist(Ws[:, i])))
+                metas.append(dict(desc, point=int(i)))
         # user-supplied q_calc
         qc_user = np.unique(np.concatenate([q, np.linspace(max(q.min() * 0.3, 1e-5), q.max() * 1.6, 150)]))
         try:
